@@ -718,6 +718,20 @@ pub fn generate(seed: u64, base: &Cfg) -> Program
                 let s = g.r.below(4) as usize;
                 if !sig_used[s] { sig_used[s] = true; sig_count[s] = 1; let slot = g.r.below(nslots as u64) as Slot; steps.push(Step::Direct(WOp::SigPrepare(s as u8, slot))); }
                 else if sig_count[s] == 0 { continue; }
+                else if g.r.chance(15)
+                {
+                    // chained release: the harness's clones of signal s end up owned by another slot's entity, whose own signal
+                    // then reaches zero: the collection that despawns it releases s during the pass
+                    let holder = g.r.below(nslots as u64) as Slot;
+                    for _ in 0..sig_count[s] { steps.push(Step::Direct(WOp::SigMoveInto(s as u8, holder))); }
+                    sig_count[s] = 0;
+                    let s2 = (s + 1 + g.r.below(3) as usize) % 4;
+                    if !sig_used[s2] { sig_used[s2] = true; steps.push(Step::Direct(WOp::SigPrepare(s2 as u8, holder))); steps.push(Step::Direct(WOp::SigDrop(s2 as u8))); sig_count[s2] = 0; }
+                    else if g.r.chance(50) { steps.push(Step::Direct(WOp::Despawn(holder))); }
+                    else { steps.push(Step::Direct(WOp::DespawnRec(holder))); }
+                    steps.push(Step::Direct(WOp::Gc));
+                    steps.push(Step::Direct(WOp::Gc));
+                }
                 else if g.r.chance(45) { sig_count[s] += 1; steps.push(Step::Direct(WOp::SigClone(s as u8))); }
                 else
                 {
